@@ -145,6 +145,11 @@ func (s *scanner) Length() (uint, error) {
 			length--
 		}
 	}
+	if length > uint(s.dataSize) {
+		// Lexemes closed by the end of the text (an unterminated annotation)
+		// end past the last byte.
+		length = uint(s.dataSize)
+	}
 	for ; length > 0; length-- {
 		c := s.data.Byte(length - 1)
 		if !bytes.IsBlank(c) {
